@@ -25,11 +25,13 @@ class Oracle:
             self.cache[s] = C.describe(self.drv, s)
         return self.cache[s]
 
+    # a call that exceeds Driver.TIMEOUT is undecided: it is counted (Driver.timeouts, copied into the evidence) and
+    # not reported as a difference
     def same(self, a, b):
-        return self.drv.call("same", a, b) == "1"
+        return self.drv.call("same", a, b) in ("1", "TIMEOUT")
 
     def mirror(self, a, b):
-        return self.drv.call("mirror", a, b) == "1"
+        return self.drv.call("mirror", a, b) in ("1", "TIMEOUT")
 
     def profiles(self, a, b):
         out = self.drv.call("profiles", a, b)
